@@ -67,7 +67,7 @@ impl Monitor for C01 {
                         "lp_held",
                         None,
                         format!("pool {id} first funded but the contract locked {held} LP (supply {})", p.supply),
-                        witness(json!({"pool": id, "locked": held, "supply": p.supply})),
+                        witness(json!({"pool": id, "locked": held.to_string(), "supply": p.supply.to_string()})),
                     );
                 } else {
                     rep.held("lp_held", hash_of(&(id, "first")), || json!({"pool": id, "locked_minimum": held.to_string(), "supply": p.supply.to_string()}));
